@@ -101,6 +101,57 @@ pub fn run(ws: &[&str]) -> String {
         _ => return BAD.into(),
     };
     let (a1, a2, a3) = (ws[10], ws[11], ws[12]);
+    // in half of the cases OTHER clients are used on this thread first: one whose request cannot
+    // even be prepared, and clients whose credentials coincide with the real ones under some
+    // lossy reading (other split of "id:secret", other letter case, trimmed / padded, form-decoded,
+    // id and secret swapped).  Nothing of them may reach the observed request.
+    let last_decoy: RefCell<Option<(String, String)>> = RefCell::new(None);
+    let others_first = ws.iter().flat_map(|w| w.bytes()).fold(0xcbf29ce484222325u64, |h, b| (h ^ b as u64).wrapping_mul(0x100000001b3)) >> 29 & 1 == 0;
+    if others_first {
+        let quiet = |_r: HttpRequest| -> Result<HttpResponse, FakeError> { Err(FakeError("decoy".into())) };
+        let bad = BasicClient::new(ClientId::new("decoy-id".to_string()))
+            .set_client_secret(ClientSecret::new("decoy-secret".to_string()))
+            .set_token_uri(TokenUrl::new(format!("https://decoy.example/{}", "a".repeat(70000))).unwrap())
+            .set_introspection_url(IntrospectionUrl::new(format!("https://decoy.example/{}", "b".repeat(70000))).unwrap());
+        let _ = bad
+            .exchange_password(&ResourceOwnerUsername::new("decoy-user".to_string()), &ResourceOwnerPassword::new("decoy-password".to_string()))
+            .add_scope(Scope::new("decoy-scope".to_string()))
+            .add_extra_param("decoy", "1")
+            .request(&quiet);
+        let _ = bad.introspect(&AccessToken::new("decoy-token".to_string())).set_token_type_hint("decoy-hint").request(&quiet);
+        if let Some(sec) = &secret {
+            let raw = format!("{}:{}", id, sec);
+            let mut creds: Vec<(String, String)> = vec![];
+            for (p, c) in raw.char_indices() {
+                if c == ':' {
+                    creds.push((raw[..p].to_string(), raw[p + 1..].to_string()));
+                }
+            }
+            let dec = |x: &str| url::form_urlencoded::parse(format!("k={}", x).as_bytes()).next().map(|(_, v)| v.to_string()).unwrap_or_default();
+            creds.push((id.to_uppercase(), sec.to_uppercase()));
+            creds.push((id.to_lowercase(), sec.to_lowercase()));
+            creds.push((id.trim().to_string(), sec.trim().to_string()));
+            creds.push((format!(" {}", id), format!("{} ", sec)));
+            creds.push((dec(&id), dec(sec)));
+            creds.push((sec.clone(), id.clone()));
+            creds.push((id.clone(), format!("{}\u{0}", sec)));
+            creds.push((id.clone(), String::new()));
+            creds.retain(|(a, b)| !(a == &id && b == sec));
+            creds.truncate(16);
+            // one of them is also used IMMEDIATELY before the observed request (see finish!)
+            let pick = (ws.iter().map(|w| w.len()).sum::<usize>()) % creds.len().max(1);
+            if let Some(c) = creds.get(pick) {
+                *last_decoy.borrow_mut() = Some(c.clone());
+            }
+            for (did, dsec) in creds {
+                let c = BasicClient::new(ClientId::new(did))
+                    .set_client_secret(ClientSecret::new(dsec))
+                    .set_auth_type(auth.clone())
+                    .set_token_uri(TokenUrl::new("https://decoy.example/token".to_string()).unwrap());
+                let _ = c.exchange_client_credentials().request(&quiet);
+            }
+        }
+    }
     // a plan of builder calls: s:x.. = add_scope, m:<list> = add_scopes
     let mut plan: Vec<Vec<Scope>> = vec![];
     let mut plan_single: Vec<bool> = vec![];
@@ -174,6 +225,15 @@ pub fn run(ws: &[&str]) -> String {
             let mut req = $req;
             for (k, v) in extras.iter() {
                 req = req.add_extra_param(k.clone(), v.clone());
+            }
+            // the request sent on this thread immediately before the observed one comes from
+            // another client with look-alike credentials
+            if let Some((did, dsec)) = last_decoy.borrow().clone() {
+                let c = BasicClient::new(ClientId::new(did))
+                    .set_client_secret(ClientSecret::new(dsec))
+                    .set_auth_type(auth.clone())
+                    .set_token_uri(TokenUrl::new("https://decoy.example/token".to_string()).unwrap());
+                let _ = c.exchange_client_credentials().request(&decoy_client);
             }
             if asyncv {
                 let _ = variant.drive(req.request_async(&async_client));
